@@ -76,6 +76,45 @@ pub fn run(ctx: &mut Ctx) {
             } else { fail(ctx, &id, "ipa", "honest transcript failed".into()); }
         }
     }
+    // --- sizes must not grow with the hiding bound the keys are trimmed for (proof elements are counted in the
+    // degree, not in the number of protected queries): trim with hiding bounds above the degree
+    for (d, hb) in [(7usize, 8usize), (7, 20), (3, 12), (15, 40), (1, 5)] {
+        let id = format!("C19/hiding-bound-independence/{}/{}", d, hb);
+        if !ctx.selected(&id) { continue; }
+        let mut rng = rng_for(ctx.seed, "C19/hiding-bound-independence", (d * 100 + hb) as u64);
+        fn sized<S: Scheme>(rng: &mut Rng, d: usize, hb: usize, shb: usize) -> Option<(usize, usize)>
+        where <S::P as Polynomial<Fr>>::Point: Clone + Ord + std::fmt::Debug {
+            let sizes = Sizes { max_degree: hb + d + 3, supported: d, num_vars: None };
+            let pp = S::PC::setup(sizes.max_degree, None, rng).ok()?;
+            let (ck, vk) = S::PC::trim(&pp, d, shb, None).ok()?;
+            let p = S::rand_poly(rng, &sizes, d);
+            let lp = LabeledPolynomial::new("p".to_string(), p.clone(), None, Some(1));
+            let (c, st) = S::PC::commit(&ck, [&lp], Some(rng)).ok()?;
+            let z = S::rand_point(rng, &sizes);
+            let mut sp = fresh_sponge();
+            let proof = S::PC::open(&ck, [&lp], &c, &z, &mut sp, &st, Some(rng)).ok()?;
+            let mut vs = fresh_sponge();
+            if !S::PC::check(&vk, &c, &z, [p.evaluate(&z)], &proof, &mut vs, Some(rng)).ok()? { return None; }
+            let bp: <S::PC as PolynomialCommitment<Fr, S::P>>::BatchProof = vec![proof.clone()].into();
+            Some((size(c[0].commitment()), size(&bp)))
+        }
+        macro_rules! cmp {
+            ($S:ty, $name:expr) => {
+                match (sized::<$S>(&mut rng, d, hb, 1), sized::<$S>(&mut rng, d, hb, hb)) {
+                    (Some(a), Some(b)) => {
+                        if a != b {
+                            fail(ctx, &id, $name, format!("degree {}: keys trimmed for hiding bound 1 give commitment/proof of {:?} bytes, keys trimmed for hiding bound {} give {:?}", d, a, hb, b));
+                        }
+                        ctx.rep.case(&format!("{} deg={} sizes independent of the trimmed hiding bound {}: {:?} / {:?}", $name, d, hb, a, b), Some(format!("{}/hiding-independence/{}/{}", $name, d, hb)));
+                    }
+                    _ => fail(ctx, &id, $name, format!("honest transcript failed (degree {}, hiding bound {})", d, hb)),
+                }
+            };
+        }
+        cmp!(Marlin, "marlin");
+        cmp!(Sonic, "sonic");
+        cmp!(Ipa, "ipa");
+    }
     // --- PST13: one group element per variable
     for nv in 1..=(if ctx.thorough { 6 } else { 4 }) {
         for d in [1usize, 2, 4] {
